@@ -38,6 +38,8 @@ def items():
         if not os.path.exists(mp):
             continue
         meta = json.load(open(mp))
+        if meta.get("obsolete"):
+            continue
         props = [meta["property"]] + [x for x in meta.get("caught_by", []) if x != meta["property"]]
         out.append(dict(name="seeded/" + os.path.basename(d), kind="patch", path=os.path.join(d, "patch.diff"),
                         props=props, expect_miss=meta.get("expect_miss", False)))
